@@ -42,7 +42,7 @@ MANIFEST = dict(
          "with the real engine stepped through its own `_thread_func` on boundary-aimed scripts, and of the handshake model with a real GeckoSpa against the "
          "real GeckoSimulator (both engines stepped, shipped snapshot) under seeded loss. Search: monitors on the stepped real engine (send order, gaps, "
          "dispatch target, handler list, retransmission counts, engine liveness, handshake outcome)."
-         ' Since session 3: per-attempt-timeout monitor (consecutive retransmissions of one request at least T apart) and a backlog corpus script; the simulator is built by its real constructor. Session 4: over the regenerated skeletons of all seven socket methods that touch the handler lists or the counters, every mutation happens under self._lock (shared_state_mutated_under_the_lock), hence by the lock holder for any number of threads and any pre-emptive interleaving that respects the lock (shared_state_mutually_exclusive, via lock_mutex). A real-thread search stops the clean-up step before each of its source lines while a second thread registers a request (registration must survive). every_answer_restarts_the_clock (every normal end of handled / async_handled calls _reset_timeout). foreign_code_never_stops_the_engine (+ send_step_contains_handler_exceptions): the four steps of the engine contain whatever a handler\'s code (its send_bytes property, can_handle / handle / handled, loop), the OS socket or the sub-class hook raises (Thrown / exception_is_contained over the regenerated skeletons; reads of send_bytes are skeleton events). Round 15: the blocking hand-shake with BOTH threads stepped (one _ping_thread_func iteration per ping period) under idle and active timings with one datagram lost; first match with three handlers overlapping only partly on one verb, all registration orders and datagram sequences up to four.',
+         ' Since session 3: per-attempt-timeout monitor (consecutive retransmissions of one request at least T apart) and a backlog corpus script; the simulator is built by its real constructor. Session 4: over the regenerated skeletons of all seven socket methods that touch the handler lists or the counters, every mutation happens under self._lock (shared_state_mutated_under_the_lock), hence by the lock holder for any number of threads and any pre-emptive interleaving that respects the lock (shared_state_mutually_exclusive, via lock_mutex). A real-thread search stops the clean-up step before each of its source lines while a second thread registers a request (registration must survive). every_answer_restarts_the_clock (every normal end of handled / async_handled calls _reset_timeout). foreign_code_never_stops_the_engine (+ send_step_contains_handler_exceptions): the four steps of the engine contain whatever a handler\'s code (its send_bytes property, can_handle / handle / handled, loop), the OS socket or the sub-class hook raises (Thrown / exception_is_contained over the regenerated skeletons; reads of send_bytes are skeleton events). Round 15: the blocking hand-shake with BOTH threads stepped (one _ping_thread_func iteration per ping period) under idle and active timings with one datagram lost; first match with three handlers overlapping only partly on one verb, all registration orders and datagram sequences up to four. Round 16: refresh_only_when_connected, final_connect_needs_an_open_socket_and_a_block, every_blocking_set_value_is_sent over the regenerated skeletons of the blocking session glue.',
     note="PARTIAL: real threads are outside the step model - client threads calling queue_send/add_receive_handler are serialised between iterations (the code "
          "uses self._lock for the lists; the new last_destination assignment in queue_send is outside the lock), and `_thread_func` iterates "
          "self._receive_handlers WITHOUT the lock while client threads may append (a data race the step model cannot exhibit; named, not claimed). "
